@@ -59,4 +59,4 @@ def run_hdr(prop, ev):
                           "struct field is read from its doc comment ('Tag NNN - ...' / 'XXX - ...')")
     ev.functions.update(["headers::UserHeader (Display)", "headers::Trailer (Display)"])
     ev.bounds.append("any subset of the 13 block-3 tags / 8 block-5 tags present, values unconstrained strings")
-    return _handle(prop, "mtsym-hdr", results, ev, lambda r: "%s/%s/display-drops-%s" % (prop, r["type"], r.get("tag")))
+    return _handle(prop, "mtsym-hdr", results, ev, lambda r: "%s/%s/%s" % (prop, r["type"], r.get("kf") or "display-drops-%s" % r.get("tag")))
